@@ -8,6 +8,7 @@ from vlib.symeval import zb
 from checks import passes
 from checks.common import REPLAY_PRELUDE
 
+HASH_SEEDS = {"quick": (1,), "thorough": (1, 2, 3)}  # also run (quick size) under these PYTHONHASHSEEDs
 LEVEL = "translation_validation"
 TECHNIQUE = "translation validation: per (circuit, pass) z3 equivalence of real-evaluator terms before/after, plus interface/argument/size predicates"
 USES_STUBS = True
